@@ -1,6 +1,8 @@
 package checks
 
 import (
+	"os"
+	"strconv"
 	"time"
 
 	"verifharness/internal/core"
@@ -129,7 +131,11 @@ func init() {
 			}
 			// conflict analyses and certificate lines of more than a thousand literals (planted, satisfiable:
 			// every emitted line must still follow by unit propagation)
-			res = append(res, wideClauseCases(env, env.Pick(80, 800), true)...)
+			nWide := env.Pick(600, 4000)
+			if v, err := strconv.Atoi(os.Getenv("VERIF_DEV_WIDE")); err == nil && v > 0 { // development aid
+				nWide = v
+			}
+			res = append(res, wideClauseCases(env, nWide, true)...)
 			res = append(res, scanCandidates(env, "cnf", env.Pick(10000, 150000), false, scanCNF(true))...)
 			return res
 		},
